@@ -3,7 +3,11 @@
 Extracted (consumed by Gbnf/Compiler.v): every string literal returned by `_compile_*`, the sanitiser
 replace chain and its other literals, the literal-escape chain, the `unsupported` list and the other
 literals of `_compile_regex`, the isinstance dispatch of `compile_constraint`, the priority order of
-`compile_chain`, and `compile_schema` as an ordered list of guarded line templates.
+`compile_chain`, and `compile_schema` as an ordered list of guarded line templates. A template hole is a plain
+name (`field_name`, `schema.name`, ...) or exactly `self._escape_literal(field_name)` / `self._escape_literal(schema_name)`
+(kept as a hole of that name: the model escapes there and nowhere else); the flags `gbnf_field_name_escaped` /
+`gbnf_schema_name_escaped` say whether EVERY occurrence of the name in a template is wrapped (Gbnf/Safe.v chooses the
+name clause by them; Gbnf/Compiler.v pins that they agree with the templates).
 Fail closed: any statement shape that is not recognised raises TranslateError.
 """
 import ast
@@ -32,6 +36,23 @@ def _single_return_const(mod, name):
     return v
 
 
+ESC_WRAPPED = ("field_name", "schema_name")      # names that may appear as self._escape_literal(<name>) in a template
+
+
+def _hole_name(e):
+    """Text of an f-string hole. The ONLY call accepted is `self._escape_literal(<Name>)` (one positional Name argument,
+    no keywords): it becomes the hole `self._escape_literal(<name>)`, which `allowed` must list. Anything else that is
+    not a plain name / attribute chain is refused."""
+    if isinstance(e, ast.Call):
+        f = e.func
+        need(isinstance(f, ast.Attribute) and isinstance(f.value, ast.Name) and f.value.id == "self"
+             and f.attr == "_escape_literal" and len(e.args) == 1 and not e.keywords and isinstance(e.args[0], ast.Name),
+             f"unexpected call in a template hole: {ast.unparse(e)[:60]}")
+        return f"self._escape_literal({e.args[0].id})"
+    need(isinstance(e, (ast.Name, ast.Attribute)), f"unexpected expression in a template hole: {ast.unparse(e)[:60]}")
+    return ast.unparse(e)
+
+
 def _fstring_parts(e, allowed):
     """JoinedStr / Constant / `"lit" + name` -> [('L', text) | ('H', hole)] ; holes must be in `allowed`."""
     if isinstance(e, ast.Constant) and isinstance(e.value, str):
@@ -48,7 +69,7 @@ def _fstring_parts(e, allowed):
             if isinstance(v, ast.Constant):
                 out.append(("L", v.value))
             elif isinstance(v, ast.FormattedValue) and v.format_spec is None and v.conversion == -1:
-                h = ast.unparse(v.value)
+                h = _hole_name(v.value)
                 need(h in allowed, f"unexpected hole {h}")
                 out.append(("H", h))
             else:
@@ -68,7 +89,8 @@ def _compile_schema(mod):
     args = [a.arg for a in fn.args.args]
     need(args == ["self", "schema", "include_envelope"], f"compile_schema signature changed: {args}")
     need(len(fn.args.defaults) == 1 and const_eval(fn.args.defaults[0]) is False, "include_envelope default changed")
-    holes = {"schema.name", "rule_name", "field_name", "pattern", "field_refs", "schema_name"}
+    holes = {"schema.name", "rule_name", "field_name", "pattern", "field_refs", "schema_name"} \
+        | {f"self._escape_literal({n})" for n in ESC_WRAPPED}
     prog = []          # (guard, parts)
     info = {}
 
@@ -329,6 +351,12 @@ def generate(src):
     d_str("gbnf_schema_no_chain", info["no_chain"])
     d_str("gbnf_schema_refs_sep", info["refs_sep"])
     d_str("gbnf_schema_line_sep", info["line_sep"])
+    # does every occurrence of the name inside a template go through _escape_literal (and is there one)?
+    for var in ESC_WRAPPED:
+        raw = sum(1 for _, parts in prog for k, v in parts if k == "H" and v == var)
+        wrapped = sum(1 for _, parts in prog for k, v in parts if k == "H" and v == f"self._escape_literal({var})")
+        need(raw + wrapped >= 1, f"compile_schema: {var} is no longer written into any template")
+        out.append(f"Definition gbnf_{var}_escaped : bool := {'true' if raw == 0 else 'false'}.\n")
     items = []
     for g, parts in prog:
         ps = coq_list([("PLit " if k == "L" else "PHole ") + coq_str(v) for k, v in parts], "gpart")
